@@ -226,8 +226,12 @@ def build(d, route="event", rng=None, lambda_backend=True, order=None, reuse=Fal
     if order is not None:
         procs = [procs[i] for i in order]
 
+    LONG = {"T": "between states", "B": "birth process", "D": "death process"}
+
     def mk_tr(tr, eqn=None, birth_by_origin=False):
         a = dict(transition_type=tr["ty"], magnitude=tr["mag"])
+        if rng is not None and rng.random() < 0.12:
+            a["transition_type"] = LONG[tr["ty"]]          # the documented long spelling of the type
         if tr["ty"] == "B":
             a["origin" if birth_by_origin else "destination"] = S[tr["d"]]
         elif tr["ty"] == "D":
